@@ -9,6 +9,7 @@ import (
 	"github.com/ipfs/go-unixfsnode/file"
 	dagpb "github.com/ipld/go-codec-dagpb"
 	"io"
+	"strings"
 	"testing"
 
 	"github.com/ipfs/go-cid"
@@ -547,4 +548,101 @@ func TestC05_R_LargestChunks(t *testing.T) {
 			}
 		}
 	}
+}
+
+// ---------------------------------------------------------------- nodes over raw leaves that record no BlockSizes
+
+const c05RawOldRule = "case = (hand-made file whose leaves are raw blocks, with empty chunks, where the nodes directly above the leaves may record no BlockSizes - a raw leaf's size is its link's Tsize, nothing has to be opened to learn it; byte range [a,b)); read by Seek(a)+ReadFull(b-a) on a lazily reified node and by the subset-matcher traversal; " +
+	"oracle = span model: no block outside {blocks whose span intersects [a,b)} + {empty chunks, and nodes over empty chunks only, lying at a position in [a,b]} is requested, every non-empty chunk in the range is, bytes = content[a:b]; non-trivial = a node without BlockSizes and an empty chunk outside the range; distinct by (writer, alignment)"
+
+func TestC05_P_RawLeafNodesWithoutBlockSizes(t *testing.T) {
+	ev := newEvid(t, c05RawOldRule)
+	rapid.Check(t, func(t *rapid.T) {
+		fc := genHandFileDAGOpt(t, handOpts{MinChunk: 2, SpareBlockSize: true, NoFileSizeOK: true, RawOldStyle: true})
+		if len(fc.Data) == 0 {
+			t.Skip("no bytes to range over")
+		}
+		a, b := genRange(t, fc)
+		ls := fc.St.LinkSystem()
+		allowed, required := map[cid.Cid]bool{}, map[cid.Cid]bool{}
+		fc.Tree.Needed(a, b, allowed)
+		emptyOutside := false
+		for _, n := range fc.Tree.All() {
+			if len(n.Kids) == 0 && n.Start != n.End && allowed[n.Cid] {
+				required[n.Cid] = true
+			}
+		}
+		for _, n := range fc.Tree.All() {
+			if n.Start == n.End { // an empty chunk, or a node over nothing but empty chunks
+				if n.Start >= a && n.Start <= b {
+					allowed[n.Cid] = true
+				} else if !allowed[n.Cid] {
+					emptyOutside = true
+				}
+			}
+		}
+		pn, err := loadPlain(ls, fc.Root)
+		if err != nil {
+			t.Fatal(err)
+		}
+		fc.St.ResetLogs()
+		var got []byte
+		must(t, "lazy range read", func() {
+			var rn datamodel.Node
+			rn, err = unixfsnode.Reify(ipld.LinkContext{}, pn, ls)
+			if err != nil {
+				return
+			}
+			var rs io.ReadSeeker
+			rs, err = rn.(datamodel.LargeBytesNode).AsLargeBytes()
+			if err != nil {
+				return
+			}
+			if _, err = rs.Seek(a, io.SeekStart); err != nil {
+				return
+			}
+			got = make([]byte, b-a)
+			_, err = io.ReadFull(rs, got)
+		})
+		if err != nil || !bytes.Equal(got, fc.Data[a:b]) {
+			t.Fatalf("C05 [%s] range [%d,%d): err=%v, %d bytes", fc.Desc, a, b, err, len(got))
+		}
+		log := fc.St.ReadLog()
+		if c, ok := subsetOf(log, allowed); !ok {
+			t.Fatalf("C05 [%s] range [%d,%d): over-fetch of block %s (requested %v, the range needs %d blocks)", fc.Desc, a, b, c, shortCids(log), len(allowed))
+		}
+		gotSet := cidSet(log)
+		for c := range required {
+			if !gotSet[c] {
+				t.Fatalf("C05 [%s] range [%d,%d): chunk %s of the range was never requested although the bytes were returned", fc.Desc, a, b, c)
+			}
+		}
+		ssb := sbuilder.NewSelectorSpecBuilder(basicnode.Prototype.Any)
+		sel, err := ssb.ExploreInterpretAs("unixfs", ssb.MatcherSubset(a, b)).Selector()
+		if err != nil {
+			t.Fatal(err)
+		}
+		fc.St.ResetLogs()
+		var sub []byte
+		matches := 0
+		must(t, "subset traversal", func() {
+			prog := traversal.Progress{Cfg: &traversal.Config{LinkSystem: *ls, LinkTargetNodePrototypeChooser: protoChooser}}
+			err = prog.WalkMatching(pn, sel, func(p traversal.Progress, n datamodel.Node) error {
+				matches++
+				var e error
+				sub, e = n.AsBytes()
+				return e
+			})
+		})
+		if err != nil || matches != 1 || !bytes.Equal(sub, fc.Data[a:b]) {
+			t.Fatalf("C05 [%s] subset traversal [%d,%d): err=%v, %d matches, %d bytes", fc.Desc, a, b, err, matches, len(sub))
+		}
+		if c, ok := subsetOf(fc.St.ReadLog(), allowed); !ok {
+			t.Fatalf("C05 [%s] subset traversal [%d,%d): over-fetch of block %s", fc.Desc, a, b, c)
+		}
+		noBS := strings.Contains(fc.Writer, "-bs=false-")
+		ev.Case(fmt.Sprintf("%s in=%v eo=%v", fc.Writer, a > 0 && b < int64(len(fc.Data)), emptyOutside), noBS && emptyOutside,
+			fmt.Sprintf("blocksizes:%v", !noBS), fmt.Sprintf("emptyChunkOutsideRange:%v", emptyOutside), fmt.Sprintf("depth:%d", fc.Tree.Depth()))
+		ev.Sample(map[string]any{"file": fc.Desc, "a": a, "b": b, "allowed_blocks": len(allowed), "total_blocks": len(fc.Tree.PreOrder())})
+	})
 }
